@@ -10,11 +10,11 @@ Local Open Scope N_scope.
    is within PATH_MAX and, when it is a "#!" script, that what the kernel pushes for it ([sb]: the name once more and the
    interpreter line) is within PATH_MAX + 256 *)
 Theorem C06_accepted : forall c b rl env fn sb,
-  within_limits c b -> c_sys c = sys_budget (kernel_limit rl) env -> c_init c <> [] ->
+  within_limits c b -> c_sys c = sys_budget (kernel_limit rl) env -> charged c <> [] ->
   Forall (fun len => len + 1 <= MAX_ARG_STRLEN) (env_strings env) ->
-  Forall (fun len => len + 1 <= MAX_ARG_STRLEN) (c_init c) ->
+  Forall (fun len => len + 1 <= MAX_ARG_STRLEN) (charged c) ->
   fn + 1 <= 4096 -> sb <= 4096 + 256 ->
-  kernel_accepts rl {| argv := c_init c ++ map alen b; envp := env_strings env; fname := fn; shebang := sb |}.
+  kernel_accepts rl {| argv := charged c ++ map alen b; envp := env_strings env; fname := fn; shebang := sb |}.
 Proof. exact xargs_batch_accepted. Qed.
 Print Assumptions C06_accepted.
 
@@ -58,7 +58,7 @@ Print Assumptions C06_oversize_never_admitted.
 (* ... it ends the run with status 1 (C04_batching's TooLarge case + C04_invocations_are_batches):
    restated here for a single oversize argument *)
 Theorem C06_oversize_reported : forall c tmpl a outs,
-  charge_init (limiters0 c) (c_init c) = Some tmpl -> c_replace c = false ->
+  charge_init (limiters0 c) (charged c) = Some tmpl -> c_replace c = false ->
   max_single_arg < cost a ->
   fst (xargs_run c [a] false outs) = 1.
 Proof. exact oversize_status. Qed.
